@@ -4556,3 +4556,218 @@ def mr3(proj, rep, modules=None):
         mm = proj.mod('numqi.utils')
         rep.ok('MR3', 'scope', f'{n} packed index expressions scanned', mm, mm.tree, text='mr3 sweep')
     return n
+
+
+RULE_BT1 = ('BT1: `.T` is not applied to an array the function itself treats as batched (it indexes it with an Ellipsis, flattens it with reshape(-1, ..), or reads '
+            '`shape[:-1]` / `shape[:-2]`): on more than two axes `.T` reverses ALL axes - batch members are mixed or the broadcast fails; the adjoint of the last two axes is '
+            '`swapaxes(-1, -2)` / `.mT`.')
+RULE_OUT2 = ('OUT2: `np.outer(x, x)` of one complex-capable vector (x comes from a complex generator of the package or is combined with `1j`) conjugates its second factor: '
+             'without it the result is x x^T, not the projector |x><x| (not Hermitian, trace != 1).')
+RULE_RK1 = ('RK1: a reduction / scan over a tensor that may be complex (it is derived from the input of a complex-capable conversion) never names a real accumulator dtype '
+            '(`cumsum(.., dtype=torch.float64)`, `sum(.., dtype=np.float64)`): the imaginary part is discarded with a warning only.')
+
+
+def bt1_out2_rk1(proj, rep, which, modules=None):
+    n = dict(BT1=0, OUT2=0, RK1=0)
+    for k in which:
+        rep.rule(k, globals()['RULE_' + k])
+    def _own_batched(f2):
+        out = set()
+        ps = set(f2.all_params)
+        for x in ast.walk(f2.node):
+            if isinstance(x, ast.Subscript) and isinstance(x.value, ast.Name) and x.value.id in ps:
+                idx = x.slice.elts if isinstance(x.slice, ast.Tuple) else [x.slice]
+                if any(isinstance(i, ast.Constant) and i.value is Ellipsis for i in idx):
+                    out.add(x.value.id)
+            if isinstance(x, ast.Subscript) and isinstance(x.value, ast.Attribute) and x.value.attr == 'shape' and isinstance(x.value.value, ast.Name) \
+                    and x.value.value.id in ps and isinstance(x.slice, ast.Slice) and x.slice.lower is None and ast.unparse(x.slice.upper) in ('-1', '-2'):
+                out.add(x.value.value.id)
+        # `shape0 = A.shape` ... `shape0[:-2]`
+        snap = {s2.targets[0].id: s2.value.value.id for s2 in ast.walk(f2.node) if isinstance(s2, ast.Assign) and len(s2.targets) == 1 and isinstance(s2.targets[0], ast.Name)
+                and isinstance(s2.value, ast.Attribute) and s2.value.attr == 'shape' and isinstance(s2.value.value, ast.Name) and s2.value.value.id in ps}
+        for x in ast.walk(f2.node):
+            if isinstance(x, ast.Subscript) and isinstance(x.value, ast.Name) and x.value.id in snap and isinstance(x.slice, ast.Slice) and x.slice.lower is None \
+                    and x.slice.upper is not None and ast.unparse(x.slice.upper) in ('-1', '-2'):
+                out.add(snap[x.value.id])
+        return out
+    for fi in proj.iter_functions():
+        m = fi.module
+        if not _in_scope(m, modules):
+            continue
+        fn = fi.node
+        params = set(fi.all_params)
+        if 'BT1' in which:
+            batched = set()
+            # one level through resolved numqi callees: a parameter handed to a callee that treats that argument as a batch
+            from ..callgraph import resolve_callee as _rc
+            for c in ast.walk(fn):
+                if isinstance(c, ast.Call) and c.args and isinstance(c.args[0], ast.Name) and c.args[0].id in params:
+                    try:
+                        r_ = _rc(proj, m, c)
+                    except Exception:
+                        continue
+                    g = r_.node if r_.kind == 'func' else None
+                    if g is not None and getattr(g, 'all_params', None) and g.node is not fn:
+                        gp = [a for a in g.all_params if a not in ('self', 'cls')]
+                        if gp and gp[0] in _own_batched(g):
+                            batched.add(c.args[0].id)
+            for x in ast.walk(fn):
+                if isinstance(x, ast.Subscript) and isinstance(x.value, ast.Name) and x.value.id in params:
+                    idx = x.slice.elts if isinstance(x.slice, ast.Tuple) else [x.slice]
+                    if any(isinstance(i, ast.Constant) and i.value is Ellipsis for i in idx):
+                        batched.add(x.value.id)
+                if isinstance(x, ast.Subscript) and isinstance(x.value, ast.Attribute) and x.value.attr == 'shape' and isinstance(x.value.value, ast.Name) \
+                        and x.value.value.id in params and isinstance(x.slice, ast.Slice) and x.slice.lower is None and ast.unparse(x.slice.upper) in ('-1', '-2'):
+                    batched.add(x.value.value.id)
+            for x in ast.walk(fn):
+                if isinstance(x, ast.Attribute) and x.attr == 'T' and isinstance(x.value, ast.Name) and x.value.id in batched:
+                    # not after a re-binding of the name to a 2-D view
+                    if any(isinstance(s, ast.Assign) and any(isinstance(t, ast.Name) and t.id == x.value.id for t in s.targets) and s.lineno < x.lineno for s in ast.walk(fn)):
+                        continue
+                    # only when the function is not restricted to ndim == 2 on that path
+                    import re as _re
+                    guard = any(isinstance(g, (ast.If, ast.Assert)) and (f'{x.value.id}.ndim==2' in ast.unparse(g.test).replace(' ', '')
+                                                                         or _re.search(r'\b%s\.shape==\([^(),]+,[^(),]+\)' % _re.escape(x.value.id), ast.unparse(g.test).replace(' ', '')))
+                                for g in ast.walk(fn))
+                    n['BT1'] += 1
+                    rep.touch(m)
+                    if guard:
+                        rep.ok('BT1', fi.qual, f'`{ast.unparse(x)}` under an ndim == 2 guard', m, x)
+                    else:
+                        rep.violation('BT1', fi.qual, f'`{ast.unparse(x)}` reverses all axes of `{x.value.id}`, which this function treats as a batch (Ellipsis index / shape[:-k]): '
+                                      f'for a batch the members are mixed or the broadcast fails', m, x)
+        if 'OUT2' in which:
+            for c in ast.walk(fn):
+                if isinstance(c, ast.Call) and ast.unparse(c.func) in ('np.outer', 'numpy.outer') and len(c.args) == 2 and isinstance(c.args[0], ast.Name) \
+                        and ast.dump(c.args[0]) == ast.dump(c.args[1]):
+                    n['OUT2'] += 1
+                    vals = [v for v, st, pth in reaching_defs(fn, c.args[0].id, c) if isinstance(v, ast.AST)]
+                    cplx = any(isinstance(y, ast.Constant) and isinstance(y.value, complex) for v in vals for y in ast.walk(v)) or any(
+                        isinstance(y, ast.Call) and ast.unparse(y.func).split('.')[-1] in ('rand_haar_state', '_random_complex', 'rand_haar_unitary') and not any(
+                            k.arg == 'tag_complex' for k in y.keywords) for v in vals for y in ast.walk(v))
+                    rep.touch(m)
+                    if cplx:
+                        rep.violation('OUT2', fi.qual, f'`{ast.unparse(c)}`: `{c.args[0].id}` is complex, so this is x x^T - the projector needs `np.outer(x, x.conj())`', m, c)
+                    else:
+                        rep.ok('OUT2', fi.qual, f'`{ast.unparse(c)}`: no evidence that the vector is complex', m, c)
+        if 'RK1' in which:
+            for c in ast.walk(fn):
+                if isinstance(c, ast.Call) and ast.unparse(c.func).split('.')[-1] in ('cumsum', 'sum', 'cumprod', 'prod', 'mean', 'einsum') and any(
+                        k.arg == 'dtype' and ast.unparse(k.value).split('.')[-1] in _REALF for k in c.keywords):
+                    arg = c.args[0] if c.args else (c.func.value if isinstance(c.func, ast.Attribute) else None)
+                    if arg is None:
+                        continue
+                    names = {y.id for y in ast.walk(arg) if isinstance(y, ast.Name)}
+                    # derived from a parameter through plumbing / arithmetic
+                    derived = set(params)
+                    changed = True
+                    while changed:
+                        changed = False
+                        for s in ast.walk(fn):
+                            if isinstance(s, ast.Assign) and isinstance(s.targets[0], ast.Name) and s.targets[0].id not in derived and any(
+                                    isinstance(y, ast.Name) and y.id in derived for y in ast.walk(s.value)):
+                                derived.add(s.targets[0].id)
+                                changed = True
+                    cap = any(isinstance(y, ast.Call) and ast.unparse(y.func).split('.')[-1] in ('is_complex', 'iscomplexobj') for y in ast.walk(fn)) or any(
+                        ast.unparse(y).split('.')[-1] in _CPLX for y in ast.walk(fn) if isinstance(y, ast.Attribute)) or any(
+                        isinstance(y, ast.Constant) and isinstance(y.value, complex) for y in ast.walk(fn))
+                    if names & derived:
+                        n['RK1'] += 1
+                        rep.touch(m)
+                        if cap:
+                            rep.violation('RK1', fi.qual, f'`{ast.unparse(c)[:70]}` accumulates an input-derived tensor in a real dtype, in a function that handles complex input: the '
+                                          f'imaginary part of the accumulated entries is discarded', m, c)
+                        else:
+                            rep.ok('RK1', fi.qual, f'`{ast.unparse(c)[:50]}`: the function has no complex path', m, c)
+    for k in which:
+        rep.count(f'{k}.instances', n[k])
+    return n
+
+
+RULE_A13 = ('A13: inside a custom autograd `backward`, an array that aliases a saved tensor or an incoming gradient (`ctx.saved_tensors[k]`, `grad_output`, through detach / numpy / '
+            'reshape / view) is never written in place (`out=` of a ufunc, item store, augmented assignment, in-place method): the saved tensor is the forward result itself, a second '
+            'backward through the same graph (retain_graph, Jacobian rows) starts from the modified state and torch\'s version counter does not see a NumPy write.')
+_ALIAS_CALLS = ('detach', 'numpy', 'reshape', 'view', 'ravel', 'squeeze', 'unsqueeze', 'contiguous', 'transpose', 'permute', 'swapaxes', 'cpu')
+
+
+def a13(proj, rep, modules=None):
+    rep.rule('A13', RULE_A13)
+    n = 0
+    for fi in proj.iter_functions():
+        m = fi.module
+        if not _in_scope(m, modules) or fi.node.name != 'backward' or not fi.all_params or fi.all_params[0] != 'ctx':
+            continue
+        fn = fi.node
+
+        def root_alias(e, al):
+            while True:
+                if isinstance(e, ast.Call) and isinstance(e.func, ast.Attribute) and e.func.attr in _ALIAS_CALLS:
+                    e = e.func.value
+                elif isinstance(e, ast.Subscript):
+                    e = e.value
+                elif isinstance(e, ast.Attribute) and e.attr in ('T', 'mT', 'data'):
+                    e = e.value
+                else:
+                    break
+            if isinstance(e, ast.Attribute) and ast.unparse(e) == 'ctx.saved_tensors':
+                return True
+            return isinstance(e, ast.Name) and e.id in al
+        alias = set(fi.all_params[1:])
+        changed = True
+        while changed:
+            changed = False
+            for s in ast.walk(fn):
+                if isinstance(s, ast.Assign) and len(s.targets) == 1:
+                    tg = s.targets[0]
+                    names = [tg] if isinstance(tg, ast.Name) else ([e for e in tg.elts if isinstance(e, ast.Name)] if isinstance(tg, (ast.Tuple, ast.List)) else [])
+                    if names and root_alias(s.value, alias):
+                        for t in names:
+                            if t.id not in alias:
+                                alias.add(t.id)
+                                changed = True
+        n += 1
+        rep.touch(m)
+        bad = None
+        for x in ast.walk(fn):
+            if isinstance(x, ast.Call):
+                for k in x.keywords:
+                    if k.arg == 'out' and root_alias(k.value, alias):
+                        bad = x
+                if isinstance(x.func, ast.Attribute) and root_alias(x.func.value, alias) and (x.func.attr.endswith('_') and not x.func.attr.startswith('_') or x.func.attr in ('fill', 'sort', 'itemset')):
+                    bad = x
+            elif isinstance(x, ast.Assign) and any(isinstance(t, ast.Subscript) and root_alias(t.value, alias) for t in x.targets):
+                bad = x
+            elif isinstance(x, ast.AugAssign) and (root_alias(x.target, alias) if not isinstance(x.target, ast.Name) else x.target.id in alias):
+                bad = x
+        if bad is not None:
+            rep.violation('A13', fi.qual, f'`{ast.unparse(bad)[:70]}` writes in place into an array that aliases a saved tensor / incoming gradient: a second backward through the same '
+                          f'graph starts from the modified state', m, bad)
+        else:
+            rep.ok('A13', fi.qual, f'no in-place write into the {len(alias)} aliases of saved tensors / incoming gradients', m, fn, text=f'{fi.qual} saved-tensor aliases')
+    rep.count('A13.backward_functions', n)
+    return n
+
+
+RULE_M4 = ('M4: in measure_quantum_vector every item store into the collapsed buffer (allocated as zeros_like of the state) reads the pre-measurement state: a constant store '
+           '(`q2[sel] = 1`) returns |b> instead of the projection a_b/|a_b| |b> - the phase of the surviving amplitude is lost.')
+
+
+def m4(proj, rep):
+    rep.rule('M4', RULE_M4)
+    fi = proj.func('numqi.sim.state.measure_quantum_vector')
+    m = fi.module
+    rep.touch(m)
+    n = 0
+    bufs = {s.targets[0].id: s.value.args[0].id for s in ast.walk(fi.node) if isinstance(s, ast.Assign) and isinstance(s.targets[0], ast.Name) and isinstance(s.value, ast.Call)
+            and ast.unparse(s.value.func).split('.')[-1] in ('zeros_like', 'empty_like') and s.value.args and isinstance(s.value.args[0], ast.Name)}
+    for s in ast.walk(fi.node):
+        if isinstance(s, ast.Assign) and isinstance(s.targets[0], ast.Subscript) and isinstance(s.targets[0].value, ast.Name) and s.targets[0].value.id in bufs:
+            n += 1
+            src = bufs[s.targets[0].value.id]
+            if any(isinstance(y, ast.Name) and y.id == src for y in ast.walk(s.value)):
+                rep.ok('M4', fi.qual, f'`{ast.unparse(s)[:60]}` reads `{src}`', m, s)
+            else:
+                rep.violation('M4', fi.qual, f'`{ast.unparse(s)[:60]}` stores a value that does not read the state `{src}`: the collapsed state is not the projection of the input '
+                              f'(phase of the surviving amplitude lost)', m, s)
+    rep.count('M4.collapse_stores', n)
+    return n
